@@ -200,7 +200,8 @@ func checkC07(c *Ctx) {
 					results[b].states = append(results[b].states, st)
 				}
 			}
-			if res.ExitCode != 0 {
+			// with -continue TLC exits 0 even when invariants were violated
+			if res.ExitCode != 0 || strings.Contains(res.Output, "is violated") {
 				results[b].bad = res.Output
 			}
 			results[b].st = [2]int64{sub.States, sub.Transitions}
